@@ -31,10 +31,13 @@ def _run_shard(binary, wdir, idx, scripts):
         try:
             p = subprocess.run([binary, "-test.run", "^TestRun$", "-test.count", "1", "-test.timeout", "0"],
                                env=env, stdout=subprocess.PIPE, stderr=subprocess.STDOUT, text=True,
-                               timeout=3600)
+                               timeout=int(os.environ.get("VERIF_SHARD_TIMEOUT", "600")))
             rc, outtxt = p.returncode, p.stdout
+            timed_out = False
         except subprocess.TimeoutExpired as e:
-            rc, outtxt = -9, "harness timeout\n" + (e.stdout or "")[-2000:]
+            so = e.stdout.decode("utf-8", "replace") if isinstance(e.stdout, bytes) else (e.stdout or "")
+            rc, outtxt = -9, "harness timeout\n" + so[-2000:]
+            timed_out = True
         got = tracefmt.parse_harness(outp) if os.path.exists(outp) else {}
         progressed = False
         nxt = []
@@ -46,7 +49,9 @@ def _run_shard(binary, wdir, idx, scripts):
                 progressed = True
             elif g is not None and not crashed_one:
                 # began but never ended: the process died inside this script
-                kind = "race" if "WARNING: DATA RACE" in outtxt else "crash"
+                # a timeout means synctest.Wait never returned: some goroutine was blocked on a mutex (not a
+                # durable block), which the bubble cannot wait out -- a limitation of the harness, not a verdict
+                kind = "hang" if timed_out else ("race" if "WARNING: DATA RACE" in outtxt else "crash")
                 res[s["id"]] = {"obs": g["obs"], "end": None, "crash": kind, "output": outtxt[-6000:]}
                 crashed_one = True
                 progressed = True
